@@ -71,7 +71,10 @@ func c13srcLoad(t *tr, path string) *packages.Package {
 			"github.com/yandex/pandora/lib/ioutil2",
 			"github.com/yandex/pandora/core/provider",
 			"github.com/yandex/pandora/components/providers/grpc",
-			"github.com/yandex/pandora/components/providers/grpc/grpcjson")
+			"github.com/yandex/pandora/components/providers/grpc/grpcjson",
+			"github.com/yandex/pandora/components/providers/http/provider",
+			"github.com/yandex/pandora/core/plugin/pluginconfig",
+			"github.com/yandex/pandora/components/providers/scenario/vs")
 		if err != nil {
 			t.errs = append(t.errs, "c13src: load: "+err.Error())
 		}
@@ -751,5 +754,8 @@ func c13srcExtra(t *tr) string {
 	// ---------------------------------------------------------------- grpc/json: pooled ammo objects (area_c13src_grpc.go)
 	b.WriteString("\n")
 	b.WriteString(c13srcGrpc(t))
+	// ---------------------------------------------------------------- round 4: option handling (area_c13src_r4.go)
+	b.WriteString("\n")
+	b.WriteString(c13srcRound4(t))
 	return b.String()
 }
